@@ -80,7 +80,12 @@ def main():
     os.makedirs(out_dir, exist_ok=True)
     runs = spec['runs'](tier)
     if only:
-        runs = [r for r in runs if r['name'] == only]
+        runs = [r for r in runs if only in r['name']]
+        if not runs:
+            print('no run matches', only)
+            return 2
+        # a partial run is a debugging aid: its evidence does not replace the property's
+        os.environ.setdefault('IVSX_EVIDENCE_DIR', os.path.join(out_dir, 'partial-evidence'))
     try:
         if replay:
             return do_replay(pid, replay, runs, build_root)
